@@ -115,12 +115,12 @@ theorem C11_ping_timeout_latches (fuel : Nat) (w : World) (o : Outer) (adv : Boo
 
 /-- End of stream or a transport error while waiting for input kills the handle. -/
 theorem C11_waitRead_fault_latches (fuel : Nat) (w : World) (o : Outer) (deadline : Option Nat) (y : Bool) (k : Nat)
-    (rd : Reader) (window : Nat)
-    (hnp : w.sess.reader.packetAvailable = false) (hwin : w.sess.reader.receiveWindow = some (rd, window))
+    (s1 : Session) (window : Nat)
+    (hnp : w.sess.reader.packetAvailable = false) (hwin : w.sess.window = some (s1, window))
     (hw0 : window ≠ 0) (hs : w.slot = some k) (hk : 251 ≤ k) :
     (doWaitRead (fuel + 1) w o deadline y).live = false := by
-  have hio : ∃ w', (World.ioRead { w with sess := { w.sess with reader := rd } } window = (w', .eof) ∨
-      World.ioRead { w with sess := { w.sess with reader := rd } } window = (w', .err k)) := by
+  have hio : ∃ w', (World.ioRead { w with sess := s1 } window = (w', .eof) ∨
+      World.ioRead { w with sess := s1 } window = (w', .err k)) := by
     unfold World.ioRead
     simp only [hs]
     rw [if_neg (by omega)]
@@ -131,21 +131,20 @@ theorem C11_waitRead_fault_latches (fuel : Nat) (w : World) (o : Outer) (deadlin
 
 /-- An undecodable inbound packet kills the handle (and nothing of it is acted upon: the session data
 and runtime are untouched apart from the transport reset every disconnect performs). -/
-theorem C11_invalid_packet_latches (w : World) (rd : Reader)
-    (hav : w.sess.reader.packetAvailable = true) (htp : w.sess.reader.takePacket = (rd, none)) :
+theorem C11_invalid_packet_latches (w : World) (s1 : Session)
+    (hav : w.sess.reader.packetAvailable = true) (htp : w.sess.takePkt = (s1, none)) :
     (w.processReceivedPacket).1.live = false ∧ (w.processReceivedPacket).2 = .error .peerInvalid ∧
     (w.processReceivedPacket).1.nets = w.nets ∧
-    (w.processReceivedPacket).1.sess = ({ w.sess with reader := rd } : Session).handleDisconnect := by
+    (w.processReceivedPacket).1.sess = s1.handleDisconnect := by
   simp [World.processReceivedPacket, hav, htp]
   refine ⟨?_, ?_⟩ <;> (unfold World.handleDisconnect; rfl)
 
 /-- A broker DISCONNECT kills the handle. -/
-theorem C11_broker_disconnect_latches (w : World) (rd : Reader) (len : Nat) (rc : Option Nat) (props : Option Bytes)
+theorem C11_broker_disconnect_latches (w : World) (s1 : Session) (len : Nat) (rc : Option Nat) (props : Option Bytes)
     (hav : w.sess.reader.packetAvailable = true)
-    (htp : w.sess.reader.takePacket = (rd, some (len, .disconnect rc props))) :
+    (htp : w.sess.takePkt = (s1, some (len, .disconnect rc props))) :
     (w.processReceivedPacket).1.live = false ∧ (w.processReceivedPacket).2 = .error .disconnected := by
-  simp [World.processReceivedPacket, hav, htp, handlePacket]
-
+  simp [World.processReceivedPacket, hav, htp, Session.handle, handlePacket]
 
 /-- Non-vacuity: a world with a dead handle and a QoS 1 publish still retained. -/
 example : ∃ w : World, w.dead ∧ w.sess.data.outbound.retained ≠ [] :=
